@@ -27,6 +27,7 @@ const (
 	CommitDone Kind = "commit-done" // after the real commit succeeded
 	Rollback   Kind = "rollback"
 	QueryDone  Kind = "query-done" // a query issued OUTSIDE a transaction has been read completely (rows closed)
+	StmtDone   Kind = "stmt-done"  // a statement INSIDE a transaction has completed (exec returned / rows closed); errors are ignored
 )
 
 // Event describes one interaction with the database.
@@ -133,7 +134,11 @@ func (c *conn) ExecContext(ctx context.Context, q string, args []driver.NamedVal
 	if err := fire(c.actor(ctx), Exec, q, c.inTx); err != nil {
 		return nil, err
 	}
-	return c.c.ExecContext(ctx, q, args)
+	r, err := c.c.ExecContext(ctx, q, args)
+	if err == nil && c.inTx {
+		_ = fire(c.actor(ctx), StmtDone, q, true)
+	}
+	return r, err
 }
 
 func (c *conn) QueryContext(ctx context.Context, q string, args []driver.NamedValue) (driver.Rows, error) {
@@ -141,10 +146,10 @@ func (c *conn) QueryContext(ctx context.Context, q string, args []driver.NamedVa
 		return nil, err
 	}
 	r, err := c.c.QueryContext(ctx, q, args)
-	if err != nil || c.inTx {
+	if err != nil {
 		return r, err
 	}
-	return &rows{Rows: r, actor: c.actor(ctx), q: q}, nil
+	return &rows{Rows: r, actor: c.actor(ctx), q: q, inTx: c.inTx}, nil
 }
 
 // rows reports the end of a non-transactional read (the point after which the reader acts on what
@@ -153,12 +158,19 @@ type rows struct {
 	driver.Rows
 	actor string
 	q     string
+	inTx  bool
 	once  sync.Once
 }
 
 func (r *rows) Close() error {
 	err := r.Rows.Close()
-	r.once.Do(func() { _ = fire(r.actor, QueryDone, r.q, false) })
+	r.once.Do(func() {
+		if r.inTx {
+			_ = fire(r.actor, StmtDone, r.q, true)
+		} else {
+			_ = fire(r.actor, QueryDone, r.q, false)
+		}
+	})
 	return err
 }
 
